@@ -217,6 +217,13 @@ def skip3():
     return es, ["m", "n0", "n1", "n2"]
 
 
+def sharedw2():
+    """two matmuls reading the SAME weight: T1[m,n1] = T0[m,n0] * W[n0,n1]; T2[m,n0] = T1[m,n1] * W[n0,n1]"""
+    return ([{"name": "E0", "tensors": [["T0", ["m", "n0"], False], ["W", ["n0", "n1"], False], ["T1", ["m", "n1"], True]]},
+             {"name": "E1", "tensors": [["T1", ["m", "n1"], False], ["W", ["n0", "n1"], False], ["T2", ["m", "n0"], True]]}],
+            ["m", "n0", "n1"])
+
+
 def matmul_ab():
     return ([{"name": "Z", "tensors": [["A", ["m", "k"], False], ["B", ["k", "n"], False], ["Z", ["m", "n"], True]]}],
             ["m", "k", "n"])
